@@ -94,7 +94,7 @@ def main():
             if shrunk < 3:
                 shrunk += 1
                 try:
-                    small = shrink.shrink(program, res, v0["signature"], check, budget_s=float(os.environ.get("VERIF_SHRINK_S", "45")))
+                    small = shrink.shrink(program, res, v0["signature"], check, budget_s=float(os.environ.get("VERIF_SHRINK_S", "45")), violation=v0)
                     r2 = runner.run_program(small, check)
                     vv = [x for x in r2.get("violations", []) if x["signature"] == v0["signature"]]
                     if not vv:
